@@ -10,7 +10,7 @@ from contextlib import redirect_stdout
 
 from . import tlc, decio
 from . import c07
-from .core import Outcome, ensure_repo_on_path, finish, pmap, Machinery
+from .core import Outcome, ensure_repo_on_path, finish, pmap, Machinery, chunked
 
 PROP = "C08"
 QUERIES = ["mothers", "ndecays", "modes", "chains", "chains_stable", "expand", "print", "aliases", "cc", "defs", "copy",
@@ -263,6 +263,7 @@ def gen_behaviours(wd, o, mode, maxlen, *, view, simulate=None, seed=0, queries=
     return out
 
 
+@chunked()
 def judge(cases, wd, o, what):
     tf = wd / f"trace_{len(list(wd.glob('trace_*.json')))}.json"
     tf.write_text(json.dumps([c["events"] for c in cases]))
